@@ -2373,9 +2373,13 @@ def _factorize_multiple(
             if expect is None and is_duck_dask_array(by_):
                 raise ValueError("Please provide expected_groups when grouping by a dask array.")
 
+        def _labels_present(by_) -> pd.Index:
+            # the labels, and their order, that factorizing eagerly would find
+            groups = pd.Index(pd.unique(by_.reshape(-1))).dropna()
+            return groups.sort_values() if sort else groups
+
         found_groups = tuple(
-            pd.Index(pd.unique(by_.reshape(-1))) if expect is None else expect
-            for by_, expect in zip(by, expected_groups)
+            _labels_present(by_) if expect is None else expect for by_, expect in zip(by, expected_groups)
         )
         grp_shape = tuple(map(len, found_groups))
 
@@ -2388,7 +2392,8 @@ def _factorize_multiple(
                 meta=np.array((), dtype=np.int64),
                 **kwargs,
             )
-            for by_, expect_ in zip(by_chunked, expected_groups)
+            # codes must refer to the labels returned below: every block is factorized against all of them
+            for by_, expect_ in zip(by_chunked, found_groups)
         ]
         # This could be avoied but we'd use `np.where`
         # instead `_ravel_factorized` instead i.e. a copy.
